@@ -251,6 +251,38 @@ def rule_c(model, rep):
 
 
 # ----------------------------------------------------------------------------- C08.d
+def rule_f(model, rep):
+    """passlib.exc builds several of its errors through factory *functions* (MalformedHashError(...) returns a ValueError);
+    `raise exc.MalformedHashError` without the call raises TypeError('exceptions must derive from BaseException')"""
+    R = "C08.f-raise-factory"
+    ex = model.unit("passlib.exc")
+    factories = set(ex.funcs)
+    n = 0
+    for un, unit in model.units.items():
+        if not un.startswith(("passlib.", "libpass.")):
+            continue
+        for q, fn in unit.functions():
+            for r in walk_no_nested(fn):
+                if not isinstance(r, ast.Raise) or r.exc is None:
+                    continue
+                e = r.exc
+                target = e.func if isinstance(e, ast.Call) else e
+                name = target.attr if isinstance(target, ast.Attribute) else (target.id if isinstance(target, ast.Name) else None)
+                if name not in factories:
+                    continue
+                # is it really passlib.exc's function?
+                base = ast.unparse(target)
+                if not (base.endswith("exc." + name) or model.dotted(unit, target) == "passlib.exc." + name or (isinstance(target, ast.Name) and unit.imports.get(name, (None, None))[0] == "passlib.exc")):
+                    continue
+                n += 1
+                rep.check(isinstance(e, ast.Call), R, site(un, q), f"raise {ast.unparse(e)}  # a factory function, not an exception class: must be called",
+                          f"`{name}` is a function that builds the exception; it is raised as `{name}(...)`",
+                          witness=f"the malformed input reaching this line raises TypeError('exceptions must derive from BaseException') instead of ValueError "
+                                  f"(e.g. scrypt.verify('pw', '$7$C6..../....ab$cd$' + 'x'*43))")
+    if n < 40:
+        rep.undecided(R, "<instance-count>", f"only {n} raises of passlib.exc factories found, expected at least 40")
+
+
 def rule_d(model, rep):
     R = "C08.d-whole-digest"
     # settings parsed from a *full* hash are validated strictly; only config strings (no digest) may be clipped / truncated
@@ -324,6 +356,7 @@ def run(model, rep):
     rule_b(model, rep)
     rule_c(model, rep)
     rule_d(model, rep)
+    rule_f(model, rep)
     from . import shared
     shared.falsy_zero_lint(model, rep, "C08.e-zero-is-a-value", lambda un: un.startswith(("passlib.handlers", "passlib.utils.handlers")),
                            lambda un, q: q.split(".")[-1] in ("__init__", "from_string", "parse") or q.split(".")[-1].startswith(("_parse", "_norm")),
